@@ -64,9 +64,9 @@ Pick(lo, hi, extra) == {x \in lo..hi : (x - lo) % Step = 0} \cup (({lo, lo + 1, 
 CapEdges(p) == UNION {{p.upper \div k - 1, p.upper \div k, p.upper \div k + 1} : k \in {1, 2, 4, 8, 16}}
 D0Dom(p) == Pick(0, p.maxInitial, {})
 GDom(p)  == Pick(p.min, p.max, CapEdges(p))
-Domain == UNION {{[ps |-> ps, d0 |-> d, g |-> g] : d \in D0Dom(ParamSet(ps)), g \in GDom(ParamSet(ps))} : ps \in PSets}
-
-Init == case \in Domain
+\* (no set-valued constant definition of the whole domain: TLC would build it eagerly in every run)
+Init == \E ps \in PSets : \E d \in D0Dom(ParamSet(ps)) : \E g \in GDom(ParamSet(ps)) :
+          case = [ps |-> ps, d0 |-> d, g |-> g]
 Next == UNCHANGED case
 Spec == Init /\ [][Next]_case
 
